@@ -273,7 +273,7 @@ end
 structure FileD where
   loc : Loc                       -- `SourceLocations().ByPath(nil)`
   pkg : String
-  imports : List String
+  imports : List (String × String)   -- path, modifier ("", "public ", "weak ")
   opts : List SOpt
   exts : List (String × FieldD)   -- top-level extension fields with their extendee
   items : List Item               -- messages, services, enums (in this order: `printFile` adds them so)
@@ -292,13 +292,17 @@ def extCmds (b : String × List (List Cmd)) : List Cmd :=
 
 def sortStrings (l : List String) : List String := isort (fun a b => nameLess (strBytes a) (strBytes b)) l
 
+/-- `sort.Strings(importStrings)`: the imports in the order of their paths -/
+def sortImports (l : List (String × String)) : List (String × String) :=
+  isort (fun a b => nameLess (strBytes a.1) (strBytes b.1)) l
+
 /-- the walk of an arranged file -/
 def fileCmds (gen : String) (f : FileD) : List Cmd :=
   [Cmd.line ("// " ++ gen), Cmd.line ""] ++
   leadingCmds 0 f.loc ++
   [Cmd.line "syntax = \"proto3\";", Cmd.line "", Cmd.line ("package " ++ f.pkg ++ ";"), Cmd.gap] ++
   (if f.imports.isEmpty then []
-   else (sortStrings f.imports).map (fun d => Cmd.line ("import \"" ++ d ++ "\";")) ++ [Cmd.gap]) ++
+   else (sortImports f.imports).map (fun d => Cmd.line ("import " ++ d.2 ++ "\"" ++ d.1 ++ "\";")) ++ [Cmd.gap]) ++
   ((sortOpts f.opts).map (optionCmds 0)).flatten ++ [Cmd.gap] ++
   ((groupExts (f.exts.map fun e => (e.1, fieldCmds 1 e.2)) []).map extCmds).flatten ++
   elemsCmds 0 f.items true 0 0
